@@ -17,7 +17,7 @@ WORKERS = int(os.environ.get("VERIF_WORKERS", "8"))
 
 
 class Slice:
-    def __init__(self, name, terminals, ops, maxnodes, lits=(), zeros=(), idx=(10, 11), maxrank=2, maxdim=2, finalops=(), gdim=2, nenv=2, complex_env=False, small=False, simulate=None, depth=None, square_gram=(), tiny=False, levels=(), only_final=False, mikinds=("fixed", "name", "slice"), replacements=(), jets=None, geometry=None, chain=False):
+    def __init__(self, name, terminals, ops, maxnodes, lits=(), zeros=(), idx=(10, 11), maxrank=2, maxdim=2, finalops=(), gdim=2, nenv=2, complex_env=False, small=False, simulate=None, depth=None, square_gram=(), tiny=False, levels=(), only_final=False, mikinds=("fixed", "name", "slice"), replacements=(), jets=None, geometry=None, chain=False, pipeline=None):
         self.name = name
         self.terminals = terminals
         self.ops = set(ops)
@@ -41,6 +41,7 @@ class Slice:
         self.mikinds = tuple(mikinds)
         self.replacements = list(replacements)
         self.chain = chain
+        self.pipeline = pipeline  # dict(options=[kwargs of compute_form_data, ...], opts={terminal: {kind:}})
         self.geometry = geometry  # dict(gdim=, tdim=, names={J,K,detJ}, identities={name: n}, opts={name: {kind:}})
         self.jets = jets  # dict(mode=, ndir=, seeds=, opts=, gateaux=) -> derivative semantics (spec/jets/CQ.tla)
         for l in self.levels:
@@ -65,7 +66,7 @@ LIT = {
 }
 
 
-def run_slices(ctx, sls, pid, on_mismatch=None, accept=None, timeout=1500, jobs=None, post=None, guard_inputs=False):
+def run_slices(ctx, sls, pid, on_mismatch=None, accept=None, timeout=1500, jobs=None, post=None, guard_inputs=False, world_hook=None):
     """TLC runs of all slices concurrently (each JVM has a fixed start-up cost), replay in order."""
     from concurrent.futures import ThreadPoolExecutor
 
@@ -75,7 +76,7 @@ def run_slices(ctx, sls, pid, on_mismatch=None, accept=None, timeout=1500, jobs=
         futs = [ex.submit(_tlc_phase, ctx.seed, sl, timeout, per) for sl in sls]
         for sl, fut in zip(sls, futs):
             pool, res = fut.result()
-            _replay_phase(ctx, sl, pid, pool, res, on_mismatch, accept, post, guard_inputs)
+            _replay_phase(ctx, sl, pid, pool, res, on_mismatch, accept, post, guard_inputs, world_hook)
 
 
 def run_slice(ctx, sl, pid, on_mismatch=None, accept=None, timeout=1500):
@@ -86,7 +87,13 @@ def run_slice(ctx, sl, pid, on_mismatch=None, accept=None, timeout=1500):
 
 
 def _tlc_phase(seed, sl, timeout, workers):
-    if sl.jets:
+    if sl.pipeline:
+        from .pipeenv import PipePool
+
+        pool = PipePool(sl.terminals, sl.pipeline["options"], nenv=sl.nenv, seed=seed + hash_name(sl.name), opts=sl.pipeline.get("opts"))
+        pool.gateaux = []
+        pool.seed_term = None
+    elif sl.jets:
         from .envs import JetPool
 
         j = sl.jets
@@ -103,13 +110,13 @@ def _tlc_phase(seed, sl, timeout, workers):
     kw = {}
     if sl.simulate:
         kw = dict(simulate=f"num={max(1, sl.simulate // workers)}", depth=sl.depth or (sl.maxnodes + 1), seed=seed + 1)
-    if sl.jets:
+    if sl.jets or sl.pipeline:
         kw["lib_first"] = [os.path.join(os.path.dirname(os.path.dirname(os.path.abspath(__file__))), "spec", "jets")]
     res = tlc.run(name, cfg, mc_text=mc, mc_name=name, workers=workers, timeout=timeout, coverage=False, **kw)
     return pool, res
 
 
-def _replay_phase(ctx, sl, pid, pool, res, on_mismatch, accept, post=None, guard_inputs=False):
+def _replay_phase(ctx, sl, pid, pool, res, on_mismatch, accept, post=None, guard_inputs=False, world_hook=None):
     ctx.add_tlc(res)
     if res.outcome != "ok":
         tail = "\n".join(res.stdout.splitlines()[-30:])
@@ -119,6 +126,8 @@ def _replay_phase(ctx, sl, pid, pool, res, on_mismatch, accept, post=None, guard
         raise MachineryError(f"slice {sl.name}: TLC produced no behaviours")
     w = replay.World(pool, sl.lits, sl.zeros, sl.idx, gdim=sl.gdim, embed=(sl.geometry or {}).get("gdim"))
     w.guard_inputs = guard_inputs
+    if world_hook:
+        world_hook(w)
     stats = {}
     seen_ops = {}
     seen = set()
